@@ -16,13 +16,18 @@ import (
 	"strconv"
 	"strings"
 	"testing"
+	"time"
 	"unicode"
+
+	"google.golang.org/grpc"
 
 	"pgregory.net/rapid"
 
 	"github.com/ozontech/seq-db/parser"
 	sapi "github.com/ozontech/seq-db/pkg/storeapi"
+	"github.com/ozontech/seq-db/pkg/seqproxyapi/v1"
 	"github.com/ozontech/seq-db/proxy/search"
+	"github.com/ozontech/seq-db/proxyapi"
 	"github.com/ozontech/seq-db/seq"
 
 	"verif/internal/evid"
@@ -480,6 +485,31 @@ func drain(it search.DocsIterator) ([]got, error) {
 	}
 }
 
+type allowAll struct{}
+
+func (allowAll) Account(string) bool { return true }
+
+// fetchStream is the server side of the Fetch stream: it collects what the handler sends.
+type fetchStream struct {
+	grpc.ServerStream
+	out []got
+	err error
+}
+
+func (s *fetchStream) Context() context.Context { return context.Background() }
+func (s *fetchStream) Send(d *seqproxyapi.Document) error {
+	id, err := seq.FromString(d.Id)
+	if err != nil && s.err == nil {
+		s.err = fmt.Errorf("handler sent a document with id %q: %v", d.Id, err)
+	}
+	s.out = append(s.out, got{ID: model.ID{MID: uint64(id.MID), RID: uint64(id.RID)}, Body: slices.Clone(d.Data)})
+	return nil
+}
+
+func proxyAPI(cl *harness.Cluster) seqproxyapi.SeqProxyApiServer {
+	return proxyapi.VerifNewGrpcV1(proxyapi.APIConfig{SearchTimeout: time.Minute, ExportTimeout: time.Minute}, cl.Ing, nil, allowAll{})
+}
+
 func fromFetched(f []harness.Fetched) []got {
 	out := make([]got, len(f))
 	for i := range f {
@@ -574,12 +604,21 @@ func runCase(c Case) (evid.Result, error) {
 			for i, id := range r.IDs {
 				ids[i] = harness.SeqID(id)
 			}
+			// through the proxy's real gRPC Fetch handler (proxyapi/grpc_fetch.go), which hands
+			// the request to the ingestor's Documents path
 			fetch := func(ff search.FetchFieldsFilter) ([]got, error) {
-				it, err := cl.Ing.Documents(context.Background(), search.FetchRequest{IDs: ids, FieldsFilter: ff})
-				if err != nil {
+				req := &seqproxyapi.FetchRequest{}
+				for _, id := range ids {
+					req.Ids = append(req.Ids, id.String())
+				}
+				if ff.Fields != nil || ff.AllowList {
+					req.FieldsFilter = &seqproxyapi.FetchRequest_FieldsFilter{Fields: ff.Fields, AllowList: ff.AllowList}
+				}
+				st := &fetchStream{}
+				if err := proxyAPI(cl).Fetch(req, st); err != nil {
 					return nil, err
 				}
-				return drain(it)
+				return st.out, st.err
 			}
 			base, err := fetch(search.FetchFieldsFilter{})
 			if err != nil {
